@@ -87,6 +87,12 @@ def timing_scenarios(tier):
     two("exec-timeout-in-parallel", d, workers={"fa": {"*": NONE}}, budget=1)
     d = chain(("A", Pass()), ("T", Task("f1")), Z); d["TimeoutSeconds"] = 5
     two("exec-timeout-not-reached", d, workers={"f1": {"*": OK(1)}})
+    # waits and task time-outs inside fan-outs: every iteration / branch measures from its own entry, also in later MaxConcurrency batches
+    two("map-mc1-wait-items", chain(("M", Map(chain(("I", Wait(SecondsPath="$"))), MaxConcurrency=1)), Z), inp=[2, 2, 1], budget=1)
+    two("map-mc1-task-timeout-items", chain(("M", Map(chain(("I", Task("fi", TimeoutSeconds=4))), MaxConcurrency=1)), Z), inp=[1, 2],
+        workers={"fi": {"1": [["delay", ["ok", 1]]], "*": NONE}}, budget=1)
+    two("parallel-wait-after-task", chain(("P", Parallel([chain(("A1", Task("fa")), ("A2", Wait(2))), chain(("B1", Wait(1)), ("B2", Task("fb", TimeoutSeconds=3)))])), Z),
+        workers={"fa": {"*": [["delay", ["ok", "a"]]]}, "fb": {"*": NONE}}, budget=1)
     # the same under a local time zone with a non-zero minute offset (every timestamp the engine writes carries +05:30)
     base = [s for s in out if s["name"] in ("wait-seconds-1", "wait-timestamp-future", "task-timeout-slow-worker-plain", "exec-timeout-in-wait", "exec-timeout-in-task")]
     for s0 in base:
